@@ -72,16 +72,21 @@ Lemma match_misc_tie : forall (c : cls) (l : obj),
 Proof. intros. repeat split; reflexivity. Qed.
 
 (* ---- inversion / application of abstract constraints ---- *)
-Definition mk (k : ackind) (a b : acon) : acon := match k with IsAnd => AAnd a b | IsOr => AOr a b end.
+Definition mk (k : ackind) (a b : acon) : acon := match k with IsAnd => AAnd a b | IsOr => AOr a b | IsAlt => AAlt a b end.
 
 Lemma invert_tie : forall (a b : acon) (k : constr),
   invert (AAnd a b) = mk gen_and_invert (invert a) (invert b) /\
   invert (AOr a b) = mk gen_or_invert (invert a) (invert b) /\
+  invert (AAlt a b) = mk gen_alt_invert (invert a) (invert b) /\
+  apply_acon (AAlt a b) = apply_acon (mk gen_alt_apply_as a b) /\ gen_union_value_is_alt = true /\
   invert ANull = ANull /\ apply_acon ANull = [] /\
   (gen_leaf_invert_flips = true /\ invert (ALeaf k) = ALeaf (flip k)) /\
   (gen_and_apply_concat = true /\ apply_acon (AAnd a b) = apply_acon a ++ apply_acon b) /\
   (gen_leaf_apply_self = true /\ apply_acon (ALeaf k) = [k]).
 Proof. intros. repeat split; reflexivity. Qed.
+
+Lemma stale_test_tie : gen_stale_test = model_stale_test.
+Proof. reflexivity. Qed.
 
 (* ---- EqualsPredicate / InPredicate ---- *)
 Lemma gen_equals_agrees : forall a b c d e f g h i,
@@ -152,4 +157,94 @@ Proof.
   - destruct positive; [destruct (filter (assignable_lit s) ls); reflexivity|].
     destruct (in_pattern_type ls) as [c0|]; [|reflexivity].
     destruct (is_enum c0); simpl; [|reflexivity]. destruct (cls_eqb c0 c); reflexivity.
+Qed.
+
+(* ---- is_instance / is_value ---- *)
+Lemma gen_isinstance_apply_agrees : forall a b c d e f g h i j k l,
+  gen_isinstance_apply a b c d e f g h i j k l = isinstance_apply_skel a b c d e f g h i j k l.
+Proof. intros [] [] [] [] [] [] [] [] [] [] [] []; reflexivity. Qed.
+
+Lemma gen_isvalue_apply_agrees : forall a b c d e f g h i j k l m,
+  gen_isvalue_apply a b c d e f g h i j k l m = isvalue_apply_skel a b c d e f g h i j k l m.
+Proof. intros [] [] [] [] [] [] [] [] [] [] [] [] []; reflexivity. Qed.
+
+Lemma apply_isinstance_is_skel : forall c positive s,
+  apply_isinstance c positive s =
+  ainterp (isinstance_apply_skel (is_any_b (sbase s)) positive (is_known_b (sbase s)) (isinst (known_obj (sbase s)) c)
+             (is_typed_b (sbase s)) false (sub (nominal_cls (sbase s)) c) (sub c (nominal_cls (sbase s)))
+             (promotable c (nominal_cls (sbase s))) (is_sub_b (sbase s)) true (isinst (OClass (sub_cls (sbase s))) c))
+          s (plain VAny) (plain (VTyped c)).
+Proof.
+  intros c positive s. unfold apply_isinstance, isinstance_apply_skel, ainterp.
+  destruct (sbase s) as [|o|t|t|ms|g]; simpl.
+  - destruct positive; reflexivity.
+  - destruct (Bool.eqb _ positive); reflexivity.
+  - destruct positive; [destruct (sub t c); [reflexivity|destruct (sub c t || promotable c t); reflexivity]|destruct (sub t c); reflexivity].
+  - destruct (Bool.eqb _ positive); reflexivity.
+  - destruct positive; [destruct (sub CTuple c); [reflexivity|destruct (sub c CTuple || promotable c CTuple); reflexivity]|destruct (sub CTuple c); reflexivity].
+  - destruct positive; [destruct (sub (gen_cls g) c); [reflexivity|destruct (sub c (gen_cls g) || promotable c (gen_cls g)); reflexivity]|destruct (sub (gen_cls g) c); reflexivity].
+Qed.
+
+Lemma apply_isvalue_is_skel : forall l positive s,
+  apply_isvalue l positive s =
+  ainterp (isvalue_apply_skel (is_any_b (sbase s)) positive (is_known_b (sbase s)) (obj_eqb (known_obj (sbase s)) l)
+             (is_typed_b (sbase s)) (isinst l (nominal_cls (sbase s))) (promotable (class_of l) (nominal_cls (sbase s)))
+             (is_sub_b (sbase s)) true (is_class_obj l) true (sub (class_obj l) (sub_cls (sbase s)))
+             (promotable (class_obj l) (sub_cls (sbase s))))
+          s (plain VAny) (plain (VKnown l)).
+Proof.
+  intros l positive s. unfold apply_isvalue, isvalue_apply_skel, ainterp.
+  destruct (sbase s) as [|o|t|t|ms|g]; destruct positive; simpl; try reflexivity.
+  - destruct (obj_eqb o l); reflexivity.
+  - destruct (obj_eqb o l); reflexivity.
+  - destruct (isinst l t || promotable (class_of l) t); reflexivity.
+  - destruct l; simpl; try reflexivity. destruct (sub c t || promotable c t); reflexivity.
+  - destruct (isinst l CTuple || promotable (class_of l) CTuple); reflexivity.
+  - destruct (isinst l (gen_cls g) || promotable (class_of l) (gen_cls g)); reflexivity.
+Qed.
+
+(* ---- the loops ---- *)
+Lemma oneof_is_concat : forall cs s, apply_constr (KOneOf cs) s = flat_map (fun c => apply_constr c s) cs.
+Proof. intros cs s. induction cs as [|c r IH]; [reflexivity|]. simpl in *. rewrite IH. reflexivity. Qed.
+
+Lemma allof_is_sequential : forall cs s,
+  apply_constr (KAllOf cs) s = fold_left (fun vals c => flat_map (apply_constr c) vals) cs [s].
+Proof.
+  intros cs s. cbn [apply_constr]. generalize (@cons sval s nil) as vals.
+  induction cs as [|c r IH]; intros vals; [reflexivity|]. cbn [fold_left]. apply IH.
+Qed.
+
+Lemma loops_tie :
+  (gen_oneof_concat = true /\ forall cs s, apply_constr (KOneOf cs) s = flat_map (fun c => apply_constr c s) cs) /\
+  (gen_allof_sequential = true /\ gen_apply_values_flatmap = true /\
+   forall cs s, apply_constr (KAllOf cs) s = fold_left (fun vals c => flat_map (apply_constr c) vals) cs [s]) /\
+  (gen_predicate_is_provider = true /\ forall p pos s, apply_constr (KPred p pos) s = apply_pred p s pos) /\
+  (gen_constrain_fold = true /\ gen_constrain_applies = true /\
+   forall v a, constrain v a = fold_left (fun vals k => flat_map (apply_constr k) vals) (apply_acon a) v).
+Proof.
+  repeat split; first [apply oneof_is_concat | apply allof_is_sequential].
+Qed.
+
+Lemma apply_branches_tie :
+  (forall a b c d e f g h i j k l, gen_isinstance_apply a b c d e f g h i j k l = isinstance_apply_skel a b c d e f g h i j k l) /\
+  (forall a b c d e f g h i j k l m, gen_isvalue_apply a b c d e f g h i j k l m = isvalue_apply_skel a b c d e f g h i j k l m) /\
+  (forall c positive s,
+     apply_isinstance c positive s =
+     ainterp (isinstance_apply_skel (is_any_b (sbase s)) positive (is_known_b (sbase s)) (isinst (known_obj (sbase s)) c)
+                (is_typed_b (sbase s)) false (sub (nominal_cls (sbase s)) c) (sub c (nominal_cls (sbase s)))
+                (promotable c (nominal_cls (sbase s))) (is_sub_b (sbase s)) true (isinst (OClass (sub_cls (sbase s))) c))
+             s (plain VAny) (plain (VTyped c))) /\
+  (forall l positive s,
+     apply_isvalue l positive s =
+     ainterp (isvalue_apply_skel (is_any_b (sbase s)) positive (is_known_b (sbase s)) (obj_eqb (known_obj (sbase s)) l)
+                (is_typed_b (sbase s)) (isinst l (nominal_cls (sbase s))) (promotable (class_of l) (nominal_cls (sbase s)))
+                (is_sub_b (sbase s)) true (is_class_obj l) true (sub (class_obj l) (sub_cls (sbase s)))
+                (promotable (class_obj l) (sub_cls (sbase s))))
+             s (plain VAny) (plain (VKnown l))).
+Proof.
+  repeat split.
+  - apply gen_isinstance_apply_agrees.
+  - apply gen_isvalue_apply_agrees.
+  - apply apply_isinstance_is_skel.
+  - apply apply_isvalue_is_skel.
 Qed.
